@@ -18,6 +18,7 @@ APPS = os.path.dirname(os.path.abspath(__file__))
 VH = os.environ.get('E4_VH') or os.path.join(ROOT, 'target/h/release/vh')
 OUT = os.environ.get('E4_OUT_DIR') or ROOT      # evidence/ and replays/ live here (scratch dir for mutation demos)
 KF_FILE = os.environ.get('VERIF_KF_FILE', os.path.join(ROOT, 'known_findings.json'))
+MAX_REPLAYED_PER_CLASS = 6
 JOBS = int(os.environ.get('E4_JOBS', '32'))
 BLESS = os.environ.get('VERIF_BLESS', '') == '1'
 SEED = int(os.environ.get('VERIF_SEED', '0') or 0)
@@ -98,6 +99,10 @@ def run_and_judge(script):
     import e4drv
     try:
         obs = e4drv.run_script(script)
+        if obs.get('unresponsive') and script['oracle'] != 'c17':
+            # a radar that neither draws nor honours quit without traffic breaks C17 (reported there); the feed and
+            # screen oracles of C16 / C18 cannot be evaluated on it
+            return {'status': 'mach', 'msg': 'subject unresponsive after connect (no draw, quit not honoured): C17 reports this'}
         judge = _JUDGES[script['oracle']]
         verdict, summary = judge(script, obs)
         out = {'status': 'ok', 'verdict': verdict, 'summary': summary}
@@ -149,6 +154,8 @@ class Explorer:
         self.class_counts = {}
         self.samples = []
         self.unlisted_total = 0
+        self.unreplayed = {}         # class -> scripts that violated once and were not replayed (beyond the first few per class)
+        self.caps = []
 
     def close(self):
         try:
@@ -165,6 +172,9 @@ class Explorer:
         n = len(scripts)
         it = self.pool.imap_unordered(_task, list(enumerate(scripts)), chunksize=1)
         got = 0
+        n_mach_run = 0
+        n_viol_run = 0
+        first_cls = {}
         while got < n:
             try:
                 idx, res = it.next(timeout=WATCHDOG_S)
@@ -178,6 +188,15 @@ class Explorer:
             script = scripts[idx]
             self._account(script, res)
             if res['status'] == 'mach':
+                n_mach_run += 1
+            # a subject that cannot be brought into its initial state at all: stop instead of timing out script by script
+            if got >= 24 and n_mach_run == got:
+                self.machinery.append('the first %d scripts all failed to establish their initial state (e.g. %s): subject unusable, '
+                                      'run abandoned' % (got, res.get('msg')))
+                self.pool.terminate()
+                self.pool = multiprocessing.Pool(JOBS, initializer=_worker_init, initargs=(self.scratch,))
+                return got
+            if res['status'] == 'mach':
                 # a machinery error (a timeout while establishing a state, under load) is retried below,
                 # one script at a time; only a persistent one counts
                 retry.append((script, res))
@@ -189,8 +208,28 @@ class Explorer:
             if fid is not None:
                 self.known_hits[fid] = self.known_hits.get(fid, 0) + 1
                 continue
-            pending.append((script, res, [self.pool.apply_async(run_and_judge, (script,)),
-                                          self.pool.apply_async(run_and_judge, (script,))]))
+            n_viol_run += 1
+            cls0 = v['class']
+            first_cls[cls0] = first_cls.get(cls0, 0) + 1
+            if first_cls[cls0] <= MAX_REPLAYED_PER_CLASS:
+                pending.append((script, res, [self.pool.apply_async(run_and_judge, (script,)),
+                                              self.pool.apply_async(run_and_judge, (script,))]))
+            else:
+                self.unreplayed[cls0] = self.unreplayed.get(cls0, 0) + 1
+            # every script so far violates: the subject is broken at the root, the remaining scripts add nothing
+            if got >= 48 and n_viol_run == got:
+                self.caps.append('run abandoned after %d of %d scripts: every one of them violated (%s)' % (got, n, sorted(first_cls)))
+                self.pool.terminate()
+                self.pool = multiprocessing.Pool(JOBS, initializer=_worker_init, initargs=(self.scratch,))
+                pending = [(sc, rs, [self.pool.apply_async(run_and_judge, (sc,)), self.pool.apply_async(run_and_judge, (sc,))])
+                           for sc, rs, _old in pending]
+                retry = []
+                break
+        if len(retry) > max(40, n // 20):
+            # retries run one script at a time: with this many the subject (or the machine) is not in a state to be judged
+            self.machinery.append('%d of %d scripts failed to establish their state (e.g. %s: %s): not retried'
+                                  % (len(retry), n, retry[0][0].get('key'), retry[0][1].get('msg')))
+            retry = []
         for script, res0 in retry:
             res = res0
             for _ in range(2):
@@ -299,6 +338,10 @@ class Explorer:
             for cls, n in sorted(shown.items()):
                 if n > MAX_LINES_PER_CLASS:
                     print('  ... class %s: %d violating scripts in total (%d shown)' % (cls, n, MAX_LINES_PER_CLASS))
+        for cls, k in sorted(self.unreplayed.items()):
+            print('  ... class %s: %d more scripts violated on their first run and were not replayed' % (cls, k))
+        for c in self.caps:
+            print('NOTE: %s' % c)
         for f in self.flaky[:5]:
             print('MACHINERY: flaky script %s first=%s replays=%s' % (f['key'], f['first'], f['replays']))
         for m in self.machinery[:5]:
@@ -325,6 +368,11 @@ class Explorer:
             'samples': self.samples,
         }
         cov.update(coverage_extra)
+        cov['caps_hit'] = list(cov.get('caps_hit', [])) + list(self.caps)
+        if self.caps:
+            cov['exhaustive'] = False
+        if self.unreplayed:
+            cov['violating_scripts_not_replayed'] = dict(self.unreplayed)
         if level == 'fault_enumeration':
             for k in ('states', 'transitions', 'traces_validated_against_impl'):
                 cov.pop(k, None)
